@@ -3,10 +3,30 @@ built on demand; this only warms the cache)."""
 import sys, time
 from . import build
 
+def prune_cache(keep_days=2, keep_max=120):
+    """The build/result cache is keyed by source hashes, so entries of trees that no longer exist pile up
+    (every seeded tree leaves a full set): drop what has not been used for two days, and beyond the newest 120."""
+    import os, shutil
+    try:
+        ents = [os.path.join(build.CACHE, d) for d in os.listdir(build.CACHE)]
+    except OSError:
+        return
+    ents = [e for e in ents if not e.endswith('.lock')]
+    ents.sort(key=lambda e: os.path.getmtime(e), reverse=True)
+    now = time.time()
+    for i, e in enumerate(ents):
+        if i >= keep_max or now - os.path.getmtime(e) > keep_days * 86400:
+            shutil.rmtree(e, ignore_errors=True) if os.path.isdir(e) else os.unlink(e)
+            try:
+                os.unlink(e + '.lock')
+            except OSError:
+                pass
+
 def main():
     t = time.time()
+    prune_cache()
     try:
-        for v in ('fast', 'asan', 'tsan'):
+        for v in ('fast', 'asan', 'tsan', 'hbrace'):
             print('lbzx', v, build.lbzx(v))
         print('stock', build.stock())
         try:
